@@ -3,6 +3,7 @@ package main
 import (
 	"fmt"
 	"go/types"
+	"os"
 	"sort"
 	"strings"
 
@@ -400,8 +401,16 @@ func (t *FnTrans) applyContract(ct *Contract, key string, callee *ssa.Function, 
 		}
 	}
 	env.selfAlloc0 = pre.H["$alloc"]
+	if len(ct.Ensures) > 0 {
+		t.cover(fmt.Sprintf("before.%s.%d", short, nth), "true")
+	}
+	t.freshObjectHavoc(ct, env, pre)
 	for _, en := range ct.Ensures {
 		t.assume(env.evalBool(en.E))
+	}
+	if len(ct.Ensures) > 0 {
+		// vacuity guard: what the callee's postconditions add must be consistent with what is known here
+		t.cover(fmt.Sprintf("after.%s.%d", short, nth), "true")
 	}
 	if strings.Contains(ct.Key, "#") && ct.Trusted {
 		// callback contracts have no body: their ghost updates are performed here, by the caller
@@ -1180,5 +1189,57 @@ func (t *FnTrans) checkCallbackArgs(ct *Contract, key, short string, nth int, pn
 			goal = append(goal, cenv.evalBool(e.E))
 		}
 		t.obligeNamed(obName, "cbarg", implies(and(hyp...), and(goal...)), "the function passed for "+cbName+" satisfies what "+short+" assumes about it: "+cb.Ensures[0].Text)
+	}
+}
+
+// freshObjectHavoc: a callee may allocate objects and initialise their fields; its postconditions talk about
+// them (fresh(r0) && r0.f == ...). Those field values do not exist in the caller's pre-call heap versions, so the
+// heap components that the postconditions read get a new version that agrees with the old one on every object
+// that existed before the call and is unconstrained on the objects the callee allocated. (Asserting the
+// postconditions on the old versions would contradict the closed-heap facts of those versions and make what
+// follows vacuous.)
+func (t *FnTrans) freshObjectHavoc(ct *Contract, env *Env, pre *State) {
+	// only contracts that speak about objects the callee allocated: they say so with fresh(x)
+	mentionsFresh := false
+	for _, en := range ct.Ensures {
+		if strings.Contains(en.Text, "fresh(") {
+			mentionsFresh = true
+		}
+	}
+	if !mentionsFresh || os.Getenv("GOVC_NO_FRESH_HAVOC") != "" {
+		return
+	}
+	rec := map[string]bool{}
+	t.recordGets = rec
+	func() {
+		defer func() { t.recordGets = nil }()
+		for _, en := range ct.Ensures {
+			env.evalBool(en.E)
+		}
+	}()
+	allocPre, ok := pre.H["$alloc"]
+	if !ok {
+		allocPre = q("$alloc@0")
+	}
+	var comps []string
+	for c := range rec {
+		comps = append(comps, c)
+	}
+	sort.Strings(comps)
+	for _, comp := range comps {
+		if comp == "$alloc" || strings.HasPrefix(comp, "L.") || strings.HasPrefix(comp, "GG.") || strings.HasPrefix(comp, "TD.") || strings.HasPrefix(comp, "R.") {
+			continue
+		}
+		s := t.compSort[comp]
+		if !strings.HasPrefix(s, "(Array Int ") {
+			continue
+		}
+		old := t.get(comp)
+		if os.Getenv("GOVC_DEBUG_TP") != "" {
+			fmt.Fprintf(os.Stderr, "fresh-havoc %s at call %s\n", comp, ct.Key)
+		}
+		nv := t.freshVersion(comp, "@fo")
+		t.emit("(assert " + implies(t.guard, fmt.Sprintf("(forall ((fo$r Int)) (! (=> (< fo$r %s) (= (select %s fo$r) (select %s fo$r))) :pattern ((select %s fo$r))))", allocPre, nv, old, nv)) + ")")
+		t.cur.H[comp] = nv
 	}
 }
